@@ -18,7 +18,7 @@ Oracle: rows = concatenation of the single-run results in order of run start (a 
 window present, rows certainly outside absent); every yielded / stored chunk's subruns = the subruns overlapping it,
 clipped to it; a redefinition with other subruns or another selection changes the key and hides the stored data.
 Open findings the oracle may label (exact shape conditions in `_gap_label_error`, `_zero_label`, `oracle_super`):
-C14a (time gap between subruns), C14c (zero-duration chunk).
+C14a (time gap between subruns), C14c / C14e (zero-duration chunk: TypeError in continuity_check / stored superrun unreadable).
 """
 from __future__ import annotations
 
@@ -57,6 +57,7 @@ ASSUMPTIONS = [
 DGAP = "C14a-gap-between-subruns"
 DORD = "C14b-subrun-order-lost-in-run-document"
 DZERO = "C14c-zero-duration-chunk-in-superrun"
+DZERO_STORE = "C14e-zero-duration-chunk-unreadable-store"
 BASE = datetime.datetime(2020, 1, 1)
 RUN_FIELDS = ("name", "number", "start", "end", "livetime", "mode", "source")
 
@@ -339,7 +340,7 @@ def oracle_super(case, out):
         if id_order_differs:
             return (f"{DORD}: superrun processing fails ({out}) when the lexicographic order of the subrun ids differs from "
                     f"the order of run start")
-        lab = _zero_label(case) if out == "err TypeError" else (_gap_label_error(case) if out == "err ValueError" else None)
+        lab = _zero_label(case) if out == "err TypeError" else ((_gap_label_error(case) or _zero_store_label(case)) if out == "err ValueError" else None)
         if lab:
             return lab
         return f"superrun scenario on valid input failed: {out}"
@@ -469,6 +470,20 @@ def _zero_label(case):
             if any(a == b for a, b, _ in case["src"][rid]):
                 return (f"{DZERO}: [zero-duration chunk in subrun {rid}; superrun levels computed={_depth_info(case)['depth']}] "
                         f"get_iter raises TypeError in continuity_check (last_subrun is None after a chunk that lost its subruns)")
+    return None
+
+
+def _zero_store_label(case):
+    """ValueError is the open finding C14e only if: shape zerodur, processed, >= 2 superrun levels computed, write_superruns
+    on (the chunk that lost its `subruns` is stored with `subruns: None` and the loader refuses it), and a listed subrun
+    holds a zero-duration chunk"""
+    if case["shape"] != "zerodur" or case["combining"] or not case["write"] or _depth_info(case)["depth"] < 2:
+        return None
+    for data in (case["data1"], case["data2"]):
+        for rid in _ids_of(data):
+            if any(a == b for a, b, _ in case["src"][rid]):
+                return (f"{DZERO_STORE}: [zero-duration chunk in subrun {rid}; superrun levels computed={_depth_info(case)['depth']}; "
+                        f"write_superruns=on] the stored superrun cannot be re-read: ValueError ('Superrun … has no subruns information!')")
     return None
 
 
@@ -1016,7 +1031,7 @@ def run(ctx):
                        nontrivial=lambda c, o: len(set(_ids_of(c["data1"]))) >= 2 and o.startswith("ok"),
                        rule={"adjacent": "STRATIFIED: 24 strata (depth 1..3 x write_superruns x processor x rechunking saver on the target) x 4 cases (20 thorough) + free random cases; 1..4 subruns on adjacent time ranges, 1..n chunks each (random law-abiding layouts), chain of 1..3 plugins above the source with random allow_superrun / rechunk_on_save / target size, target level, combining, write_superruns, pre-made lower level, both processors, two dtypes; redefinition with subset / permutation / other list",
                              "gapped": "same, subruns separated by time gaps (1..30 ns or > 1000 ns): annotation failures and ValueError are the open finding C14a",
-                             "zerodur": "same as adjacent with zero-duration chunks; empty spans and zero-duration chunks exempt from the annotation oracle; TypeError is the open finding C14c",
+                             "zerodur": "same as adjacent with zero-duration chunks; empty spans and zero-duration chunks exempt from the annotation oracle; TypeError is the open finding C14c, ValueError on re-reading the store C14e",
                              "windowed": "adjacent subruns; the definitions list the same subrun ids but give one subrun a [start, end] time window (dict form of define_run), before and/or after the redefinition: the key must change with the selection, the stored data of the other selection must not be served, rows = the window's rows (inside: present; certainly outside: absent); annotation oracle only without window",
                              "idorder": "same as adjacent, but the run ids are in arbitrary lexicographic order relative to the run starts (the order must come from the run starts, not from the ids: finding C14b, fixed by D27)",
                              "malformed": "run starts contradicting the data order, overlapping subrun ranges: agreement of model and implementation only"}[shape],
